@@ -80,8 +80,9 @@ CLAIMED.update({
                 "PANICS on every other key is indistinguishable from the plain one (so no other key, in particular no synthetic "
                 "matrix key, is ever presented to the user's document); unaddressed_fields_irrelevant the corollary for "
                 "document pairs. A recording Document on the crate: key sets must be within the rule's keys and equal the "
-                "model's; paired documents differing only in unaddressed fields must agree.",
-        "note": TB + "Keys of the rule are computed by the generator from the YAML independently of crate and model. Runs in which matches() panics (known finding D19 of C01/C03) are not evaluated here.",
+                "model's; every name passed to Object::get on ANY object of the document tree (nested objects included) must be a "
+                "segment of a key written in the rule; paired documents differing only in unaddressed fields must agree.",
+        "note": TB + "Keys of the rule are computed by the generator from the YAML independently of crate and model. Runs in which matches() panics are not evaluated here (C03 judges them).",
         "technique": "Coq proof (nested induction over expressions; guard-document argument) + recording-document differential runs",
     },
     "C17": {
